@@ -46,9 +46,11 @@ def run(ctx):
 
     # ------------------------------------------------------------------ D1
     stores = {}
+    info_names = {name for name, ds in defs.items() if any(v is not None and isinstance(v, ast.Call) and dotted(v.func) in ('URLInfo', 'cls')
+                                                           for v, k, st in ds)}
     for n in walk_no_nested(parse.node):
         if isinstance(n, ast.Assign) and len(n.targets) == 1 and isinstance(n.targets[0], ast.Attribute) \
-                and isinstance(n.targets[0].value, ast.Name) and n.targets[0].value.id == 'info':
+                and isinstance(n.targets[0].value, ast.Name) and n.targets[0].value.id in info_names:
             stores.setdefault(n.targets[0].attr, []).append(n)
     for need in ('scheme', 'hostname', 'port', 'path', 'query', 'fragment'):
         if need not in stores:
@@ -133,11 +135,13 @@ def run(ctx):
     range_ok = False
     for n in walk_no_nested(ph.node):
         if isinstance(n, ast.If) and any(isinstance(b, ast.Raise) for b in n.body):
-            t = norm_text(n.test).replace(' ', '')
-            if ('port<0' in t or '0>port' in t) and ('port>65535' in t or '65535<port' in t or 'port>=65536' in t):
-                range_ok = True
-            if 'notO<=port<=65535'.lower() in t.lower() or 'not0<=port<=65535' in t:
-                range_ok = True
+            for pat in ('L_p < 0 or L_p > 65535', 'L_p > 65535 or L_p < 0', 'not 0 <= L_p <= 65535', 'L_p < 0 or L_p >= 65536',
+                        '0 > L_p or L_p > 65535', 'not (0 <= L_p <= 65535)'):
+                b_ = {}
+                if U.like(n.test, pat, b_):
+                    d_ = U.local_defs(ph.node).get(b_['L_p'], [])
+                    if any(v is not None and isinstance(v, ast.Call) and dotted(v.func) == 'int' for v, k_, s_ in d_):
+                        range_ok = True
     ints = [c for c in U.calls(ph.node) if dotted(c.func) == 'int']
     ck.expect(range_ok and bool(ints), 'C10-D1', ph.qual, 'port = int(port), 0..65535 else ValueError',
               'the port is not converted with int() and range-checked', ph.loc())
@@ -275,8 +279,8 @@ def run(ctx):
     ck.expect(okport, 'C10-D2', url.qual, 'port appended iff it differs from the scheme default',
               'the port is not omitted exactly when it equals the scheme default', url.loc(port_ifs[0]) if port_ifs else url.loc())
     v6 = [n for n in walk_no_nested(url.node) if isinstance(n, ast.If) and norm_text(n.test) == 'self.is_ipv6()']
-    ok6 = len(v6) == 1 and any("'[{}]'.format(self.hostname)" in norm_text(b) for b in v6[0].body) \
-        and any(norm_text(b) == 'parts.append(self.hostname)' for b in v6[0].orelse)
+    ok6 = len(v6) == 1 and any(U.like(b, "L_parts.append('[{}]'.format(self.hostname))") for b in v6[0].body) \
+        and any(U.like(b, 'L_parts.append(self.hostname)') for b in v6[0].orelse)
     ck.expect(ok6, 'C10-D2', url.qual, 'IPv6 hostnames bracketed, others verbatim', 'IPv6 bracket handling changed', url.loc())
     # ordering of the appended parts
     order = []
@@ -422,21 +426,28 @@ def run(ctx):
     it = Interp(repo, fp, body=loop.body)
     P = lv
     dot, dd = "'.'", "'..'"
+    NP = None
+    for name, ds in U.local_defs(fp.node).items():
+        if any(v is not None and isinstance(v, ast.Call) and (dotted(v.func) or '').endswith('deque') or isinstance(v, ast.List) and not v.elts
+               for v, k, st in ds if k == 'assign'):
+            NP = name
+    if NP is None:
+        raise AnalysisError('flatten_path: segment accumulator not found')
 
     def ref5(v):
         if v.ord(dot, P) == 'eq' or (v.T('P1') and not v.T(P)):
             return 'skip'
         if v.ord(dd, P) != 'eq':
             return 'append'
-        return 'pop' if v.T('new_parts') else 'skip'
+        return 'pop' if v.T(NP) else 'skip'
 
     def obs5(o, truth):
         eff = [e for e in o.effects]
         if not eff:
             return 'skip'
-        if eff == ['new_parts.append(%s)' % P]:
+        if eff == ['%s.append(%s)' % (NP, P)]:
             return 'append'
-        if eff == ['new_parts.pop()']:
+        if eff == ['%s.pop()' % NP]:
             return 'pop'
         return 'other:' + ';'.join(eff)
 
@@ -459,6 +470,6 @@ def run(ctx):
         and v.args[0].value == '/' for v, k, s in U.local_defs(fp.node).get(loop.iter.id, []))
     ck.expect(okiter, 'C10-D5', fp.qual, "segments = path.split('/')", 'segments are not obtained by splitting on "/"', fp.loc(loop))
     rets = [r for r in walk_no_nested(fp.node) if isinstance(r, ast.Return)]
-    okj = any(norm_text(r.value) == "'/'.join(new_parts)" for r in rets) and any(
-        norm_text(c) == "new_parts.appendleft('')" for c in U.calls(fp.node))
+    okj = any(norm_text(r.value) == "'/'.join(%s)" % NP for r in rets) and any(
+        norm_text(c) in ("%s.appendleft('')" % NP, "%s.insert(0, '')" % NP) for c in U.calls(fp.node))
     ck.expect(okj, 'C10-D5', fp.qual, "result = '/' + '/'.join(kept segments)", 'flatten_path result assembly changed', fp.loc())
